@@ -38,6 +38,8 @@ def install(ex) -> None:
     ex.library["ghost.fx_meaning"] = fxview.g_fx_meaning
     ex.library["ghost.fx_wellformed"] = fxview.g_fx_wellformed
     ex.library["ghost.fx_is_key"] = fxview.g_fx_is_key
+    from pyvc import ghosts
+    ghosts.install(ex)
 
 
 # ---------------------------------------------------------------------------------------------- logging (S5)
@@ -225,7 +227,7 @@ def _ctx_get(ex, st, args, kwargs, fn):
     used(ex, "A-ASYNCIO")
     if "ctx" not in st.ghost:
         st.ghost["ctx"] = ex.fresh_sv("ctx_text_at_entry")
-        st.assume(z3.Or(Sc.is_none(st.ghost["ctx"].t), Sc.is_s(st.ghost["ctx"].t)))
+        st.assume(z3.Or(Sc.is_none(st.ghost["ctx"].t), Sc.is_s(st.ghost["ctx"].t)), axiom=True)
     return [(st, st.ghost["ctx"])]
 
 
@@ -245,3 +247,11 @@ def inject_provide(ex, st, name, provider):
 
 
 LIBRARY["inject.provide"] = inject_provide
+
+
+def _asyncio_gather(ex, st, args, kwargs, fn):
+    from pyvc.engine import _gather
+    return _gather(ex, st, args, kwargs, fn)
+
+
+LIBRARY["asyncio.gather"] = _asyncio_gather
